@@ -11,6 +11,40 @@ def units_simple(shards_q, shards_t=None, **kw):
 BOTH = ["chk", "rel"]
 
 PROPS = {
+    "C03": dict(
+        profiles=BOTH, level="model_checking", units=units_simple(16),
+        rule=("(a) every constructor (try_new/new/new_truncate/from_ptr, high-bit flips) over all of B64 (~700 values: every single bit, "
+              "every boundary +-2) plus raw PageTableEntry::addr / idt::Entry::handler_addr on raw bit patterns; (b) explicit-state search: "
+              "state = one address value, actions = every safe address-returning operation (align_up/down x 64 alignments, + - += -= x offsets, "
+              "Step forward/backward(_checked), Page/PhysFrame containing/+/-/Step/from_indices of 3 sizes, from_ptr), initial states CANON / PHYS, "
+              "depth 1 with the full alphabet, depth 2 from every new depth-1 value (reduced alphabet in quick, full in thorough); invariant "
+              "canonical / <2^52 on every produced value. non-trivial = operation panicked/None or produced a value not seen before."),
+        assumptions=["a panic is not a value", "2^64 domain covered on the boundary alphabet B64, histories to depth 2"],
+    ),
+    "C04": dict(
+        profiles=["chk"], level="exploration", units=units_simple(16),
+        rule=("all 65536 u16 for PageTableIndex/PageOffset new/new_truncate (exhaustive); every canonical B64 address and every address with "
+              "one of the five fields (offset,p1..p4) running through ALL its values while the other four take {0,1,255,256,511}^4: "
+              "p1..p4_index, page_offset, page_table_index(level) for the address and Page<4K/2M/1G>, and from_page_table_indices* as exact inverse, "
+              "against independently written shifts/masks; 4 levels for the level helpers. non-trivial = at least two non-zero fields."),
+        assumptions=["the full 512^4 x 4096 product is not enumerated (per-field exhaustive)"],
+    ),
+    "C05": dict(
+        profiles=BOTH, level="exploration", units=units_simple(16),
+        rule=("Step::{forward_checked,backward_checked,forward,backward,steps_between} for VirtAddr, Page<4K/2M/1G>, PageTableIndex against the "
+              "position model pos(a)=a&(2^48-1): starts = canonical boundary set, counts = 0..4, every pairwise distance between boundary "
+              "positions +-1 (in the unit), 2^47+-1, 2^48+-1, usize::MAX, count*SIZE overflow; all start pairs for steps_between; PageTableIndex "
+              "all 512 x counts 0..=1024 (+large) exhaustively; mutual-inverse check on every successful step. non-trivial = the step crosses "
+              "a half boundary or fails."),
+        assumptions=["2^48 x 2^64 domain covered on boundary starts x boundary-distance counts, not exhaustively"],
+    ),
+    "C06": dict(
+        profiles=BOTH, level="exploration", units=units_simple(16),
+        rule=("align_down/align_up (raw, VirtAddr for 2^k<=2^47, PhysAddr) and is_aligned for all 64 power-of-two alignments x (B64 + multiples "
+              "of the alignment around 0, the gap, 2^52, 2^64, +-1) against u128 arithmetic incl. exact panic conditions; ~2000 non-powers of two "
+              "must panic; Page/PhysFrame containing_address / from_start_address for 3 sizes over B64+CANON+PHYS. non-trivial = input not aligned."),
+        assumptions=["2^64 domain covered on the boundary alphabet"],
+    ),
     "C07": dict(
         profiles=BOTH, level="exploration", units=units_simple(16),
         rule=("bounded exhaustive enumeration: every (valid value x B64 offset) pair for + - += -= and value-value "
